@@ -1723,6 +1723,24 @@ func main() {
 // again (first a SHORT value, then a long one) without any crash, with fresh objects, and read back. A leftover of
 // the killed write (for example a reused temporary file) must not leak into these values.
 func aftermath(dir string, sc *scenario, got snapshot) string {
+	// first in a FRESH process (whatever the killed process counted or cached starts again from the beginning there):
+	// its first write is a short value, read back here
+	k0 := sc.Target
+	if k0 == "" {
+		k0 = "written-by-the-next-process"
+	}
+	opf := dir + ".aftermath.json"
+	if err := writeOp(dir, childOp{Op: "set", Key: k0, Value: []byte("s")}, opf); err == nil {
+		res := runChild(opf, "", "")
+		os.Remove(opf)
+		if res.ExitCode != 0 || res.Err != "" {
+			return fmt.Sprintf("after the kill, Set(%q, 1 byte) in a fresh process fails: exit %d %s %s", k0, res.ExitCode, res.Err, shorten(res.Stderr, 200))
+		}
+		stf, _ := util.NewFileStorage(dir)
+		if b, err := stf.Get(k0); err != nil || string(b) != "s" {
+			return fmt.Sprintf("after the kill (state read back fine), the first write of the NEXT process, Set(%q, 1 byte), reads back as %d bytes %q (err %v)", k0, len(b), cut(b, 40), err)
+		}
+	}
 	st, err := util.NewFileStorage(dir)
 	if err != nil {
 		return ""
